@@ -324,6 +324,9 @@ func subjModel(kind string, buf int, f1 bool) porcupine.Model {
 // ---- scenario ------------------------------------------------------------------------------------
 
 func genSubjectOps(g *Gen, clients, maxOps int) []OpSpec {
+	if g.Tier == "thorough" {
+		maxOps += 2
+	}
 	n := g.Range(2, maxOps)
 	var ops []OpSpec
 	nextVal := 1
